@@ -82,9 +82,23 @@ def check(case):
     Linv = np.linalg.inv(L)
     basis = [[np.array(u, dtype=float) for u in ul] for ul in crys.basis]
     ul = basis[chem]
-    sh = jo.shell_distances(L, ul, nshell=4)
-    k = 1 + (case["k"] - 1) % 3
-    cutoff = 0.5 * (sh[k - 1] + sh[k])
+    if case.get("cutoff_frac") is not None:
+        # arbitrary cutoff (a multiple of the shortest cell vector) placed inside a gap between neighbour distances, >= 1e-4 from both
+        target = float(case["cutoff_frac"]) * min(np.linalg.norm(L[:, a]) for a in range(L.shape[1]))
+        sh = jo.shell_distances(L, ul, nshell=14)
+        if target >= sh[-1] - 1e-3:
+            target = 0.5 * (sh[-2] + sh[-1])
+        m = int(np.searchsorted(sh, target))
+        lo = sh[m - 1] if m > 0 else 0.
+        hi = sh[m]
+        cutoff = target if (target - lo > 1e-4 and hi - target > 1e-4) else 0.5 * (lo + hi)
+        if m == 0:
+            cutoff = 0.5 * (sh[0] + sh[1])
+        k = 0
+    else:
+        sh = jo.shell_distances(L, ul, nshell=4)
+        k = 1 + (case["k"] - 1) % 3
+        cutoff = 0.5 * (sh[k - 1] + sh[k])
     jumps = jo.all_jumps(L, ul, cutoff)
     keys = [(i, j, R) for (i, j, R, dx) in jumps]
     if len(set(keys)) != len(keys):
@@ -226,6 +240,26 @@ def run(ctx):
     if ctx.quick:
         base = base[::3]
     ctx.cases([c for i, c in enumerate(base) if ctx.mine(i)], check, label="catalogue")
+    # oblique cells, several sites of the jumping species spread over the whole cell, arbitrary cutoffs (multiples 0.5..1.7 of the
+    # shortest cell vector): the cell range the jump search has to cover is largest here.  Enumerated from a PRNG that is a pure
+    # function of VERIF_SEED (Hypothesis examples share most of their structure, see DESIGN section 8).
+    rng = np.random.default_rng(2100 + ctx.seed)
+    s3, fam = np.sqrt(3.), []
+    latts = {"hx": [[1., -0.5], [0., s3 / 2]], "ob": [[1., 0.35], [0., 1.2]], "fccp": [[0., .5, .5], [.5, 0., .5], [.5, .5, 0.]],
+             "hP": [[1., -0.5, 0.], [0., s3 / 2, 0.], [0., 0., 1.3]], "aP": [[1., 0.3, 0.2], [0., 1.1, 0.25], [0., 0., 0.9]]}
+    for name, Lm in latts.items():
+        d = len(Lm)
+        for _ in range(12 if ctx.quick else 200):
+            n = int(rng.integers(2, 4))
+            def coord():
+                # half of the coordinates hug a cell face (sites near opposite faces are joined through a neighbouring cell)
+                t = rng.integers(0, 4)
+                return float(np.round(rng.uniform(0.02, 0.08) if t == 0 else rng.uniform(0.92, 0.98) if t == 1 else rng.uniform(0.1, 0.9), 3))
+            ul_ = [[coord() for _ in range(d)] for _ in range(n)]
+            other = [[float(np.round(x, 3)) for x in rng.uniform(0.02, 0.98, size=d)]] if rng.integers(0, 2) else None
+            fam.append({"recipe": {"name": "spread:" + name, "lattice": Lm, "basis": [ul_] + ([other] if other else [])}, "chem": 0, "k": 1,
+                        "mode": "default", "ks": [0, 0, 0], "cutoff_frac": float(np.round(rng.uniform(0.5, 1.7), 3))})
+    ctx.cases([c for i, c in enumerate(fam) if ctx.mine(i)], check, label="oblique_spread")
     ctx.given(cases(), check, quick=320, thorough=10000)
 
 
